@@ -8,6 +8,8 @@
 (*                                                                         *)
 (* Channel A depends only on call sites no edit has touched; channel B     *)
 (* collects everything an edit has inserted, replaced or re-parameterised. *)
+(* Edits: insert, delete or replace a voice, change a constant, nest a     *)
+(* voice one call deeper (or back), break the program.                     *)
 (* An edit is followed by a hot swap.  What the property promises is stated*)
 (* on the specification's own state (Lang's cells, keyed by call-tree      *)
 (* path): the cells of every surviving voice move with the voice to its    *)
@@ -34,13 +36,16 @@ Helpers == [
   nest    |-> [ps |-> <<"x">>,   self |-> FALSE,
                b |-> Bin("+", Call("counter", <<Var("x")>>),
                               Bin("*", Call("lag", <<Call("counter", <<Lit(1)>>)>>), Lit(10)))],
+  deep    |-> [ps |-> <<"x">>,   self |-> FALSE, b |-> Call("counter", <<Var("x")>>)],   \* counter, one call deeper
   pacc    |-> [ps |-> <<"x">>,   self |-> TRUE,
                b |-> LetT(<<"a", "b">>, SelfE(<<0, 0>>),
                           Tup(<<Bin("+", Var("a"), Var("x")), Bin("+", Var("b"), Var("a"))>>))]
 ]
-Shapes == {"counter", "lagv", "dlv", "nestv", "paccv"}
+Shapes == {"counter", "lagv", "dlv", "nestv", "paccv"}      \* shapes a voice is created with
+DeepOf(shape) == IF shape = "counter" THEN "deepc" ELSE "none"   \* the same voice nested one call deeper
 VoiceExpr(shape, k) ==
   CASE shape = "counter" -> Call("counter", <<Lit(k)>>)
+    [] shape = "deepc"   -> Call("deep", <<Lit(k)>>)
     [] shape = "lagv"    -> Call("lag", <<Bin("*", NowE, Lit(k))>>)
     [] shape = "dlv"     -> Call("dl", <<Bin("+", NowE, Lit(k))>>)
     [] shape = "nestv"   -> Call("nest", <<Lit(k)>>)
@@ -128,13 +133,23 @@ ReplaceVoice == \E i \in 1..Len(vs), shp \in Shapes :
 ChangeConst == \E i \in 1..Len(vs) :
                   /\ Swap([vs EXCEPT ![i] = [@ EXCEPT !.k = @ + 4, !.chan = "B"]], "const")
                   /\ UNCHANGED nextId
+(* nest a voice one call deeper (counter(k) becomes deep(k) with fn deep(x){ counter(x) }) or back:  *)
+(* its state shape changes, so it starts again from zero and counts as touched; its siblings do not *)
+NestDeeper == \E i \in 1..Len(vs) :
+                 /\ DeepOf(vs[i].shape) # "none"
+                 /\ Swap([vs EXCEPT ![i] = [id |-> nextId, shape |-> DeepOf(vs[i].shape), k |-> vs[i].k, chan |-> "B"]], "nest")
+                 /\ nextId' = nextId + 1
+UnNest == \E i \in 1..Len(vs) :
+             /\ vs[i].shape = "deepc"
+             /\ Swap([vs EXCEPT ![i] = [id |-> nextId, shape |-> "counter", k |-> vs[i].k, chan |-> "B"]], "unnest")
+             /\ nextId' = nextId + 1
 (* an edit that does not compile: nothing changes *)
 BreakCompile == /\ hist # <<>> /\ nedits < MaxEdits /\ now < NTicks /\ now \in EditAt
                 /\ hist' = Append(hist, [op |-> "broken"])
                 /\ nedits' = nedits + 1
                 /\ UNCHANGED <<vs, now, st, expectA, nextId>>
 
-Next == Start \/ Tick \/ InsertVoice \/ DeleteVoice \/ ReplaceVoice \/ ChangeConst \/ BreakCompile
+Next == Start \/ Tick \/ InsertVoice \/ DeleteVoice \/ ReplaceVoice \/ ChangeConst \/ NestDeeper \/ UnNest \/ BreakCompile
 Spec == Init /\ [][Next]_vars
 
 (* on the model: the cells of a voice never touched by an edit are those of the uninterrupted run *)
